@@ -318,6 +318,10 @@ def cases(tier):
                         if writer == "gzip" and mode == "short":
                             continue  # GzipFile over a raw device: io semantics undefined for short raw writes
                         for after in ("crash", "close"):
+                            if writer == "gzip" and after == "close":
+                                # closing a GzipFile whose sink failed re-runs its internal buffer through the compressor (CPython's
+                                # gzip module); what that leaves on the device is not the library's doing
+                                continue
                             yield {"kind": "wfault", "stream": name, "writer": writer, "i": i, "k": k, "mode": mode, "after": after}
             if writer != "gzip":
                 for k in (1, 2, 3, 5, 7, 64):
@@ -330,7 +334,7 @@ def main(tier, seed, workers=None):
     TIER[0] = tier
     run = Run(PROP, "fault_enumeration", tier, seed, RULE)
     run.assumptions = ["gzip completeness is judged against zlib.decompressobj on the truncated bytes",
-                       "one fault per execution (deviation bound 1); after a raised fault the caller stops or closes",
+                       "one fault per execution (deviation bound 1); after a raised fault the caller stops or closes (GzipFile sinks: stops only - what gzip writes when it is closed after its sink failed is CPython's)",
                        "raw cuts of the 70 kB frame are taken near frame boundaries and at every 251st byte of the payload interior, not at every byte"]
     for n in ("small", "nested", "long", "empty", "zero", "bigframe"):
         build_stream(n)
